@@ -274,6 +274,12 @@ def run(rep: Report, tier: str) -> None:
     rep.rule("R05.7", "union of n operands: a datapoint of operand k is dropped iff an EARLIER operand (any of them) has its identifiers - evaluated handler, recognised de-duplication forms")
     _union_dedup(P, rep)
     _intersect_every(P, rep)
+    # ---- R05.10 set operators match Time_Period identifiers as text: one stored text per period ----
+    rep.rule("R05.10", "every accepted spelling of a Time_Period is stored as the one canonical text (set operators match Time_Period identifiers as text)")
+    from sa import sqlx as _sqlx_g
+    from sa.checks.c19 import period_limits as _pl_g
+    from sa.checks.c21 import spelling_grid as _sg_g
+    _sg_g(rep, "R05.10", {k.lower(): v for k, v in _sqlx_g.load_macros(P).items()}, _pl_g(P))
     rep.assumptions = ["operator arity as written in Vtl.g4", "UNION ALL matches columns by position (SQL)"]
 
 
